@@ -134,6 +134,9 @@ pub struct Counters {
 	pub reader_schema_used_after_reader_drop: u64,
 	pub freeze_err_unnamed_cycle: u64,
 	pub known_answers: u64,
+	/// successful reads of the 3rd / 4th block of a compressed "sized" file (the decompression buffer had
+	/// len < capacity and had to grow beyond its first size)
+	pub reads_regrown_block: u64,
 }
 impl Counters {
 	pub fn fields(&self) -> Vec<(&'static str, u64)> {
@@ -159,6 +162,7 @@ impl Counters {
 			("reader_schema_used_after_reader_drop", self.reader_schema_used_after_reader_drop),
 			("freeze_err_unnamed_cycle", self.freeze_err_unnamed_cycle),
 			("known_answers", self.known_answers),
+			("reads_regrown_block", self.reads_regrown_block),
 		]
 	}
 	pub fn add(&mut self, o: &Counters) {
@@ -189,6 +193,7 @@ impl Counters {
 		self.reader_schema_used_after_reader_drop = v[18];
 		self.freeze_err_unnamed_cycle = v[19];
 		self.known_answers = v[20];
+		self.reads_regrown_block = v[21];
 	}
 	pub fn to_line(&self) -> String {
 		self.fields().iter().map(|(k, v)| format!("{k}={v}")).collect::<Vec<_>>().join(" ")
@@ -233,6 +238,8 @@ pub struct World<'f> {
 	c: Option<SerializerConfig<'static>>,
 	r: Option<AnyReader>,
 	r_codec: Option<fixtures::Codec>,
+	r_sized: bool,
+	r_reads: u32,
 	v: [Option<Val>; 2],
 	step: usize,
 	pub results: Vec<String>,
@@ -285,6 +292,8 @@ impl<'f> World<'f> {
 			c: None,
 			r: None,
 			r_codec: None,
+			r_sized: false,
+			r_reads: 0,
 			v: [None, None],
 			step: 0,
 			results: Vec::new(),
@@ -772,8 +781,8 @@ impl<'f> World<'f> {
 				}
 				"-".to_owned()
 			}
-			Op::Open(kind, codec) => {
-				let Some(file) = self.fx.files[codec.index()].as_ref() else { return "nofixture".to_owned() };
+			Op::Open(kind, codec, variant) => {
+				let Some(file) = self.fx.file(codec, variant) else { return "nofixture".to_owned() };
 				let r: Result<Option<AnyReader>, ()> = match kind {
 					RKind::Slice => {
 						let buf = Buf::new(file);
@@ -789,6 +798,8 @@ impl<'f> World<'f> {
 					Ok(Some(r)) => {
 						self.r = Some(r);
 						self.r_codec = Some(codec);
+						self.r_sized = variant == 1;
+						self.r_reads = 0;
 						"ok".to_owned()
 					}
 					Ok(None) => "err".to_owned(),
@@ -826,8 +837,12 @@ impl<'f> World<'f> {
 					match r {
 						Ok(Some(Some((v, buf)))) => {
 							self.counters.reads_ok += 1;
+							self.r_reads += 1;
 							if self.r_codec != Some(fixtures::Codec::Null) {
 								self.counters.reads_compressed_ok += 1;
+								if self.r_sized && self.r_reads >= 3 {
+									self.counters.reads_regrown_block += 1;
+								}
 							}
 							let (e, mut leftover) = self.store_value(v, buf);
 							discard(&mut leftover);
